@@ -7,7 +7,7 @@ RULE = ('exhaustive: every ordered list of <=2 (quick) / <=3 (thorough, third le
         '{A,B}x{acquire, soft expire, hard expire, IKE rekey due, IKE lifetime over, DPD due} interleaved in every possible '
         'way with the delivery order of the in-flight datagrams, each leaf re-executed from a fresh handshake through the real '
         'main_loop; plus seeded random walks (lossless and lossy with a final lossless drain that runs the retransmission timers; a request may be given up only after the built-in number of transmissions, chained follow-up requests included; where nothing was lost - the whole exhaustive part and the lossless walks - no request may be given up while the peer still holds the IKE_SA). '
-        'A case is one action sequence; distinct = distinct action sequences; non-trivial = the collision monitor evaluated every '
+        'A further family replaces one end by an independent, conformant but unusual implementation (decorated responses, transforms and payloads in another order, several SPIs per Delete payload, requests that cross ours): the IKE_SA survives and the CHILD_SA sets agree with the peer\'s model. A case is one action sequence; distinct = distinct action sequences; non-trivial = the collision monitor evaluated every '
         'step of it and the quiescence oracle ran at its end.')
 ASSUMPTIONS = ['both endpoints run the repository code with mirror-image configurations (honest peers)',
                'CHILD-level triggers only target CHILD_SAs that both tables list at trigger time (the property\'s own restriction)',
@@ -33,7 +33,92 @@ def trigger_lists(ck):
     return lists
 
 
+def unusual_peer(ck, w, seed):
+    """The other end is an independent, conformant but UNUSUAL implementation (vf/ref/peer.py): responses decorated with status notifications (private-use
+    ones included) and vendor IDs in any payload order, transforms in another order, several SPIs in one Delete payload, several Delete payloads, requests
+    that cross ours. After everything was served the real endpoint still holds the IKE_SA, and exactly the CHILD_SAs the peer's own model holds."""
+    from vf import sim as S
+    from vf.ref import peer as refpeer
+    from vf.checks import c02
+    rng = ck.rng('unusual-peer', w)
+    kw = dict(dpd=600, lifetime=3600, mode='tunnel', a_subnet='10.1.0.0/16', b_subnet='10.2.0.0/16', ip_proto='any', a_port=0, b_port=0, ipsec_proto='ah' if w % 7 == 6 else 'esp')
+    sim, a, b = S.make_pair(seed + w, **kw)
+    col = monitors.CollisionMonitor(ck, honest=False)
+    sim.monitors.append(lambda s_, ep, rec: col.on_step(s_, ep, rec) if ep is a else None)
+    script = ['decorated-responses', 'several-spis-in-one-delete-crossing-ours', 'several-delete-payloads', 'delete-list-then-new-child', 'probes-and-rekeys'][w % 5]
+    sim.case = {'family': 'unusual-peer', 'script': script, 'conf': kw}
+    pr = refpeer.Peer(S.B4, S.A4, rng, c02.ID_B, c02.PSK_B)
+    if not pr.establish(sim, a, saddr='10.1.0.1', daddr='10.2.0.1') or not c02.established(a):
+        ck.count('unusual_peer.setup_failed')
+        return
+    sa = a.ctl.ike_sas[0]
+    # two more CHILD_SAs (different flows of the same wide entry)
+    for k in (2, 3):
+        sim.acquire(a, 0, saddr=f'10.1.0.{k}', daddr=f'10.2.0.{k}', sport=2000 + k)
+        pr.serve(sim, a)
+    if len(sa.child_sas) != 3 or len(pr.children) != 3:
+        ck.count('unusual_peer.children_not_created')
+        return
+
+    def expire(child, hard):
+        sim.expire(a, bytes(child.inbound_spi), hard, daddr=S.A4, proto=51 if kw['ipsec_proto'] == 'ah' else 50)
+    if script == 'decorated-responses':
+        expire(sa.child_sas[0], False)            # rekey: CREATE_CHILD_SA, then DELETE of the old one
+        for _ in range(3):
+            pr.serve(sim, a)
+        sa.start_dpd_at = sim.clock.t - 1
+        a.step('tick')
+        pr.serve(sim, a)
+        pr.probe(sim, a)
+        pr.serve(sim, a)
+    elif script == 'several-spis-in-one-delete-crossing-ours':
+        x, y = sa.child_sas[0], sa.child_sas[1]
+        expire(x, True)                           # our DELETE(X) is in flight ...
+        cx = next(c for c in pr.children if c['peer_spi'] == bytes(x.inbound_spi))
+        cy = next(c for c in pr.children if c['peer_spi'] == bytes(y.inbound_spi))
+        pr.delete_children(sim, a, [cx, cy] if w % 2 else [cy, cx], one_payload=True)     # ... when the peer's DELETE naming X and Y arrives
+        for _ in range(3):
+            pr.serve(sim, a)
+    elif script == 'several-delete-payloads':
+        cs = list(pr.children[:2])
+        pr.delete_children(sim, a, cs, one_payload=bool(w % 2))
+        for _ in range(2):
+            pr.serve(sim, a)
+    elif script == 'delete-list-then-new-child':
+        pr.delete_children(sim, a, list(pr.children[1:]), one_payload=True)
+        pr.serve(sim, a)
+        sim.acquire(a, 0, saddr='10.1.0.9', daddr='10.2.0.9', sport=2099)
+        pr.serve(sim, a)
+    else:
+        for k in range(4):
+            pr.probe(sim, a)
+            pr.serve(sim, a)
+            if sa.child_sas:
+                expire(sa.child_sas[k % len(sa.child_sas)], False)
+            for _ in range(3):
+                pr.serve(sim, a)
+    for _ in range(3):
+        pr.serve(sim, a)
+    ck.count('unusual_peer.runs')
+    ck.seen('unusual_peer.scripts', script)
+    ck.nontrivial(('unusual-peer', script, w))
+    mine = {(bytes(c.inbound_spi), bytes(c.outbound_spi)) for x in a.ctl.ike_sas for c in x.child_sas}
+    theirs = {(c['peer_spi'], c['my_spi']) for c in pr.children}
+    states = [x.state.name for x in a.ctl.ike_sas]
+    if states != ['ESTABLISHED']:
+        ck.violation(f'ike-sa-lost-or-stuck-against-a-conformant-but-unusual-peer:{script}', {'states': states, 'peer_log': pr.log[-8:]}, sim.case)
+    elif mine != theirs:
+        ck.violation(f'child-sa-sets-differ-from-the-unusual-peers:{script}', {'only_here': len(mine - theirs), 'only_at_the_peer': len(theirs - mine), 'peer_log': pr.log[-8:]}, sim.case)
+    elif len(a.kernel.sad) != 2 * len(mine):
+        ck.violation(f'kernel-sas-do-not-match-the-child-sas-after-an-unusual-peers-messages:{script}', {'sad': len(a.kernel.sad), 'child_sas': len(mine)}, sim.case)
+    else:
+        ck.count('unusual_peer.consistent')
+
+
 def run(ck):
+    for w in range(60 if not ck.thorough() else 3000):
+        if ck.mine(w):
+            unusual_peer(ck, w, ck.seed * 1000003 + 9109)
     col = monitors.CollisionMonitor(ck)
     mons = [col]
     seedbase = ck.seed * 1000003
@@ -87,6 +172,7 @@ def run(ck):
 
 
 def verdict(ck):
+    ck.floor('runs against a conformant but unusual peer that ended consistent', ck.counters['unusual_peer.consistent'], 45)
     ck.floor('interleavings', ck.counters['interleavings'], 1200 if not ck.thorough() else 5000)
     ck.floor('ordered trigger pairs', ck.counters['pairs_explored'], 144)
     ck.floor('distinct (state, request kind) combinations', len(ck.sets['col.state_x_request']), 25)
